@@ -115,12 +115,16 @@ type Exec struct {
 var cur *Exec
 
 // Cur returns the active execution or nil (passthrough mode).
+//
+//go:noinline
 func Cur() *Exec { return cur }
 
 // Fault is one oracle failure of an execution, under a stable finding key.
 type Fault struct{ Key, Msg string }
 
 // Fail records an oracle violation in the current execution.
+//
+//go:noinline
 func (x *Exec) Fail(key, format string, a ...any) {
 	for _, f := range x.Violations {
 		if f.Key == key {
@@ -143,6 +147,8 @@ func (x *Exec) Choices() []int {
 }
 
 // Step returns the logical time (number of scheduler steps so far).
+//
+//go:noinline
 func (x *Exec) Step() int { return x.steps }
 
 // Run executes body as thread 0 under the given choice prefix.
@@ -151,6 +157,7 @@ var DefaultFairK = 0
 func Run(prefix []int, maxSteps int, keepTrace bool, body func(x *Exec)) *Exec {
 	x := &Exec{FairK: DefaultFairK, prefix: prefix, maxStep: maxSteps, chans: make([]*chanState, 0, 64), KeepTrc: keepTrace}
 	x.Points = make([]Point, 0, 8192)
+	x.Violations = make([]Fault, 0, 32)
 	x.threads = make([]*thread, 0, 64)
 	x.envs = make([]*envEvent, 0, 64)
 	x.objs = make([]*objHB, 0, 256)
